@@ -1,5 +1,5 @@
 (* C03 - phrases follow the published layout and nothing else. *)
-From PS Require Import Base PackDefs ApiDefs SpecDefs SpecApi PackProofs PackTheorems ApiLemmas RefineProofs ApiTheorems.
+From PS Require Import Base PackDefs ApiDefs SpecDefs SpecApi PackProofs PackTheorems ApiLemmas RefineProofs ApiTheorems HeldProofs.
 From PS.Gen Require Import Consts Langs.
 Local Open Scope N_scope.
 
@@ -59,3 +59,10 @@ Theorem C03_public_constants :
   ST_MEMORY = 6 /\ ST_MULT_LANG = 7.
 Proof. exact public_consts_frozen. Qed.
 Print Assumptions C03_public_constants.
+
+(* ... and on nothing else in the library's state: the phrase written for a held seed is the same whatever feature
+   set is enabled when polyseed_encode is called *)
+Theorem C03_phrase_independent_of_enabled_set : forall sgn st r h li coin,
+  snd (fst (step sgn langs (with_reserved r st) (OpEncode h li coin))) = snd (fst (step sgn langs st (OpEncode h li coin))).
+Proof. intros sgn st r h li coin. rewrite (held_independent sgn langs st r (OpEncode h li coin) eq_refl). reflexivity. Qed.
+Print Assumptions C03_phrase_independent_of_enabled_set.
